@@ -96,6 +96,11 @@ def build_signature(value, position, via='direct', model_name='Ab'):
         attrs['db_column'] = value
     msig.add_field_sig(FieldSignature('alpha', models.CharField, attrs))
     msig.add_field_sig(FieldSignature('beta', models.IntegerField, {'null': True}))
+    # relations: a foreign key with a column of its own, a many-to-many with a table of its own
+    msig.add_field_sig(FieldSignature('owner', models.ForeignKey, {'db_column': 'owner_ref', 'null': True},
+                                      related_model='vapp.%s' % model_name))
+    msig.add_field_sig(FieldSignature('links', models.ManyToManyField, {'db_table': 'vapp_%s_links' % model_name.lower()},
+                                      related_model='vapp.%s' % model_name))
     if via == 'objects':
         if position == 'condition':
             msig.add_index_sig(IndexSignature.from_index(
